@@ -8,6 +8,7 @@ import (
 	"fmt"
 	"os"
 	"reflect"
+	"sync"
 	"syscall"
 
 	pb "github.com/wealdtech/eth2-signer-api/pb/v1"
@@ -202,25 +203,32 @@ func (t *Target) Canary() string {
 	// the fuzzed client may have locked the wallet or the account: that is its right; the canary
 	// uses its own account and re-opens what it needs through the public API first
 	_, _ = st.WalMgrH.Unlock(vkit.Ctx("client2", ""), &pb.UnlockWalletRequest{Wallet: vkit.NWallet})
-	acc := t.node.World.Accounts[len(t.node.World.Accounts)-1]
-	_, _ = st.AccMgrH.Unlock(vkit.Ctx("client2", ""), &pb.UnlockAccountRequest{Account: acc.Path(), Passphrase: []byte(vkit.DefaultPassphrase)})
 	lr, err := st.ListerH.ListAccounts(vkit.Ctx("client2", ""), &pb.ListAccountsRequest{Paths: []string{vkit.NWallet}})
 	if err != nil || lr.GetState() != pb.ResponseState_SUCCEEDED || len(lr.GetAccounts()) < 6 {
 		return fmt.Sprintf("canary listing failed: %v %v", err, lr)
 	}
-	t.canary++
-	data := make([]byte, 32)
-	data[0] = byte(t.canary)
-	data[1] = byte(t.canary >> 8)
-	dom := append([]byte{2, 0, 0, 0}, make([]byte, 28)...)
-	sr, err := st.SignerH.Sign(vkit.Ctx("client2", ""), &pb.SignRequest{Id: &pb.SignRequest_Account{Account: acc.Path()}, Data: data, Domain: dom})
-	if err != nil || sr.GetState() != pb.ResponseState_SUCCEEDED {
-		return fmt.Sprintf("canary signing failed: %v %v", err, sr.GetState())
-	}
-	var d [32]byte
-	copy(d[:], data)
-	if err := vkit.VerifySig(acc.PubKey, vkit.SigningRoot(d, dom), sr.GetSignature()); err != nil {
-		return "canary signature invalid: " + err.Error()
+	// every pre-existing account must still be usable by another client: a key lock or the locker-wide
+	// gate left behind by a hostile request would make one of these calls wait forever
+	for _, acc := range t.node.World.Accounts {
+		if acc.Wallet != vkit.NWallet {
+			continue
+		}
+		_, _ = st.AccMgrH.Unlock(vkit.Ctx("client2", ""), &pb.UnlockAccountRequest{Account: acc.Path(), Passphrase: []byte(vkit.DefaultPassphrase)})
+		t.canary++
+		data := make([]byte, 32)
+		data[0] = byte(t.canary)
+		data[1] = byte(t.canary >> 8)
+		data[2] = byte(t.canary >> 16)
+		dom := append([]byte{2, 0, 0, 0}, make([]byte, 28)...)
+		sr, err := st.SignerH.Sign(vkit.Ctx("client2", ""), &pb.SignRequest{Id: &pb.SignRequest_Account{Account: acc.Path()}, Data: data, Domain: dom})
+		if err != nil || sr.GetState() != pb.ResponseState_SUCCEEDED {
+			return fmt.Sprintf("canary signing with %s failed: %v %v", acc.Path(), err, sr.GetState())
+		}
+		var d [32]byte
+		copy(d[:], data)
+		if err := vkit.VerifySig(acc.PubKey, vkit.SigningRoot(d, dom), sr.GetSignature()); err != nil {
+			return "canary signature invalid: " + err.Error()
+		}
 	}
 
 	return ""
@@ -247,12 +255,24 @@ func ChildMain() {
 
 			continue
 		}
-		var answers []string
-		for i := range c.Reqs {
-			// progress marker, so that the parent knows which request an instance death belongs to
-			fmt.Fprintf(out, "REQ %d\n", i)
-			out.Flush()
-			answers = append(answers, t.Call(&c.Reqs[i]))
+		answers := make([]string, len(c.Reqs))
+		if c.Parallel {
+			var wg sync.WaitGroup
+			for i := range c.Reqs {
+				wg.Add(1)
+				go func(i int) {
+					defer wg.Done()
+					answers[i] = t.Call(&c.Reqs[i])
+				}(i)
+			}
+			wg.Wait()
+		} else {
+			for i := range c.Reqs {
+				// progress marker, so that the parent knows which request an instance death belongs to
+				fmt.Fprintf(out, "REQ %d\n", i)
+				out.Flush()
+				answers[i] = t.Call(&c.Reqs[i])
+			}
 		}
 		canary := t.Canary()
 		b, _ := json.Marshal(map[string]any{"answers": answers, "canary": canary})
